@@ -67,6 +67,12 @@ func (this *BufferStream) Close() error {
 	return nil
 }
 
+// Bytes returns the unread content of the stream. The slice aliases the
+// internal buffer: it is only valid until the next write.
+func (this *BufferStream) Bytes() []byte {
+	return this.buf.Bytes()
+}
+
 // Len returns the size of the stream
 func (this *BufferStream) Len() int {
 	return this.buf.Len()
